@@ -108,7 +108,6 @@ impl MT210 {
 
         verify_parser_complete(&parser)?;
 
-
         Ok(MT210 {
             transaction_reference,
             account_identification,
